@@ -550,6 +550,27 @@ namespace
         if(head.find(std::string("mesh=\"") + g_types[t] + "\"") != std::string::npos) { g_files[t].push_back({n, g_types[t], b, Bytes(), ""}); typed = true; }
       if(!typed && head.find("mesh=\"") == std::string::npos) chart_files.push_back({n, "", b, Bytes(), ""});   // chart-only file
     }
+    // generated inputs: the only shipped SurfaceMesh chart is a 1.2 MB file; give the 3D unit cubes a small one (a
+    // tetrahedron surface resp. an octahedron) so that this chart type takes part in every pipeline
+    for(int t = 2; t < 4; ++t)
+    {
+      const std::string base = (t == 2 ? "unit-cube-hexa.xml" : "unit-cube-tetra.xml");
+      for(size_t i = 0; i < g_files[t].size(); ++i)
+      {
+        if(g_files[t][i].name != base) continue;
+        std::string all(g_files[t][i].bytes.begin(), g_files[t][i].bytes.end());
+        const size_t pm = all.find("<Mesh ");
+        if(pm == std::string::npos) break;
+        std::string chart = (t == 2)
+          ? "<Chart name=\"gen:surf\">\n    <SurfaceMesh verts=\"4\" trias=\"4\">\n      <Vertices>\n        0 0 0\n        1 0 0\n        0 1 0\n        0 0 1\n      </Vertices>\n"
+            "      <Triangles>\n        0 2 1\n        0 1 3\n        0 3 2\n        1 2 3\n      </Triangles>\n    </SurfaceMesh>\n  </Chart>\n  "
+          : "<Chart name=\"gen:surf\">\n    <SurfaceMesh verts=\"6\" trias=\"8\">\n      <Vertices>\n        0.5 0.5 0\n        0.5 0.5 1\n        0 0.5 0.5\n        1 0.5 0.5\n        0.5 0 0.5\n        0.5 1 0.5\n      </Vertices>\n"
+            "      <Triangles>\n        0 2 4\n        0 4 3\n        0 3 5\n        0 5 2\n        1 4 2\n        1 3 4\n        1 5 3\n        1 2 5\n      </Triangles>\n    </SurfaceMesh>\n  </Chart>\n  ";
+        all.insert(pm, chart);
+        g_files[t].push_back({"generated:" + base + "+surfacemesh-chart", g_types[t], Bytes(all.begin(), all.end()), Bytes(), ""});
+        break;
+      }
+    }
     // multi-file meshes: pair each mesh that refers to external charts with the first chart-only file defining all of them
     for(FileEntry& pe : pending)
     {
